@@ -1,6 +1,8 @@
 package vm
 
 import (
+	"bytes"
+	"encoding/json"
 	"fmt"
 	"math/big"
 
@@ -29,6 +31,15 @@ type ScriptV1 struct {
 	Vars map[string]any `json:"vars"`
 }
 
+// UnmarshalJSON keeps numbers of vars as json.Number: decoded as float64, a monetary amount above 2^53 is
+// rounded, and overflows int above 2^63.
+func (s *ScriptV1) UnmarshalJSON(data []byte) error {
+	type scriptV1 ScriptV1
+	dec := json.NewDecoder(bytes.NewReader(data))
+	dec.UseNumber()
+	return dec.Decode((*scriptV1)(s))
+}
+
 func (s ScriptV1) ToCore() Script {
 	s.Script.Vars = map[string]string{}
 	for k, v := range s.Vars {
@@ -39,6 +50,12 @@ func (s ScriptV1) ToCore() Script {
 			switch amount := v["amount"].(type) {
 			case string:
 				s.Script.Vars[k] = fmt.Sprintf("%s %s", v["asset"], amount)
+			case json.Number:
+				if _, ok := new(big.Int).SetString(amount.String(), 10); ok {
+					s.Script.Vars[k] = fmt.Sprintf("%s %s", v["asset"], amount)
+				} else if f, err := amount.Float64(); err == nil {
+					s.Script.Vars[k] = fmt.Sprintf("%s %d", v["asset"], int(f))
+				}
 			case float64:
 				s.Script.Vars[k] = fmt.Sprintf("%s %d", v["asset"], int(amount))
 			}
